@@ -228,6 +228,24 @@ pub fn typed_hostile(seed: u64, idx: u64) -> Vec<u8> {
         legacy.db.insert(h, v);
     }
     let n_tagged = r.below(6);
+    // the slots of resource stores that current writers leave empty (older writers bundled resources
+    // there): names the rule vocabulary redirects to, with acceptable and unacceptable contents
+    let mut lr = Rng::new(crate::rng::mix3(seed, 0x1e9a, idx));
+    let mut old_redirects = RedirectStore::default();
+    let mut old_scriptlets = ScriptletStore::default();
+    if lr.chance(35) {
+        for _ in 0..lr.range(1, 4) {
+            let name = (*lr.pick(&["missing.js", "noop.js", "1x1.gif", "noop.txt", "blank", "smuggled.js", ""])).to_string();
+            let content_type = (*lr.pick(&["application/javascript", "image/gif;base64", "text/plain", "", "fn/javascript", "template"])).to_string();
+            let data = (*lr.pick(&["KGZ1bmN0aW9uKCl7fSkoKTs=", "R0lGODlhAQABAIAAAAAAAP///yH5BAEAAAAALAAAAAABAAEAAAIBRAA7", "", "!!!not base64!!!", "/w==", "e3sxfX0="])).to_string();
+            old_redirects.resources.insert(name, RedirectRes { content_type, data });
+        }
+    }
+    if lr.chance(20) {
+        for _ in 0..lr.range(1, 3) {
+            old_scriptlets.resources.insert((*lr.pick(&["noop.js", "set.js", "missing.js", ""])).to_string(), ScriptletRes { scriptlet: (*lr.pick(&["", "(function(){})();", "{{1}}", "!!!"])).to_string() });
+        }
+    }
     let f = Format {
         csp: gen_nfl(&mut r, theme_mask | (1 << 23) | (1 << 29), &theme_tag),
         exceptions: gen_nfl(&mut r, theme_mask | (1 << 22), &theme_tag),
@@ -251,14 +269,14 @@ pub fn typed_hostile(seed: u64, idx: u64) -> Vec<u8> {
             (0..n_tagged).map(|_| gen_nf(&mut r, theme_mask, &theme_tag)).collect()
         },
         enable_optimizations: r.chance(60),
-        resources: RedirectStore::default(),
+        resources: old_redirects,
         simple_class_rules: sset(&mut r),
         simple_id_rules: sset(&mut r),
         complex_class_rules: smap(&mut r),
         complex_id_rules: smap(&mut r),
         specific_rules: legacy,
         misc_generic_selectors: sset(&mut r),
-        scriptlets: ScriptletStore::default(),
+        scriptlets: old_scriptlets,
         procedural_action: hmap(&mut r),
         procedural_action_exception: hmap(&mut r),
         removeparam: gen_nfl(&mut r, theme_mask | (1 << 15), &None),
